@@ -472,6 +472,7 @@ pub fn check(tier: &str, seed: u64) -> i32 {
     let n_single = crongen::exhaustive_single_items().len();
     let mut exhaustive = crongen::exhaustive_single_items();
     exhaustive.extend(crongen::exhaustive_pairs());
+    exhaustive.extend(crongen::boundary_numerics());
     let (n_random, n_bases): (u64, u64) = match tier {
         "quick" => (2_000, 200),
         _ => (20_000, 5_000),
@@ -555,7 +556,7 @@ pub fn check(tier: &str, seed: u64) -> i32 {
         .set("samples", Json::Arr(stats.samples.iter().map(|(_, j)| j.clone()).collect()))
         .set("exhaustive_subspace", Json::s("every single value, every range a<=b (weekday ranges up to 7), every step 1..=max+1, every name and name range in four case styles, in each of the five fields with the other four `*`"))
         .set("exhaustive_subspace_size", Json::u(n_single))
-        .set("exhaustive_subspace_2", Json::s("every pair of values as a two-item list per field; every (day-of-month, day-of-week 0-7) combination with both day fields given; range-next-to-step lists per field"))
+        .set("exhaustive_subspace_2", Json::s("every pair of values as a two-item list per field; every (day-of-month, day-of-week 0-7) combination with both day fields given; range-next-to-step lists per field; boundary numerals (max+1, 255/256/257, 65536, 2^32, signs, decimals, non-ASCII digits) in every syntactic position; name prefixes, extensions and Unicode look-alikes"))
         .set("exhaustive_subspace_2_size", Json::u(exhaustive.len() - n_single))
         .set("exhaustive", Json::Bool(false))
         .set("distinct_expressions", Json::Int(stats.distinct("c16.distinct_expr") as i128))
